@@ -63,6 +63,21 @@ def run(ctx):
     rng = random.Random(ctx.seed)
     behs = vlib.tlc_behaviours(ctx, "Fallback", "Fallback_gen_order.cfg")
     exhaustive_order = len(behs)
+    # the same schedules with a caller that reaches its select only after both workers finished (gated ctx.Done)
+    lazy = vlib.tlc_behaviours(ctx, "Fallback", "Fallback_gen_lazy.cfg")
+    behs += lazy
+    # concretization of the abstract outcome "err": plain error / error after a response was stored in the context
+    import copy
+    extra = []
+    for b in behs:
+        if any(s_.get("o") == "err" for s_ in b["steps"]):
+            b2 = copy.deepcopy(b)
+            b2["err_resp"] = True
+            extra.append(b2)
+    if not T:
+        rng.shuffle(extra)
+        extra = extra[:300]
+    behs += extra
     tb = vlib.tlc_behaviours(ctx, "Fallback", "Fallback_gen_timer.cfg")
     if not T:
         rng.shuffle(tb)
@@ -74,8 +89,8 @@ def run(ctx):
                                  "EnvDeadline = TRUE", "EnvDeadline = FALSE"))
     cb = [b for b in cb if any(s["a"] == "Cancel" for s in b["steps"])]
     behs += cb
-    log("replaying %d behaviours (%d pure-order exhaustive, %d timer, %d with cancel)" % (
-        len(behs), exhaustive_order, len(tb), len(cb)))
+    log("replaying %d behaviours (%d pure-order exhaustive, %d lazy-caller, %d error-after-response variants, %d timer, %d with cancel)" % (
+        len(behs), exhaustive_order, len(lazy), len(extra), len(tb), len(cb)))
 
     binary = vlib.go_build(ctx, "drv_fallback")
     job = {"behaviours": behs, "random": 1500 if T else 300, "threshold_ms": 120, "stretch_ms": 300, "workers": 16}
